@@ -205,6 +205,15 @@ pub fn handle(s: &mut Session, rest: &str) -> String {
             }
             new_handle(s, l)
         }
+        "bigiter" => {
+            let n: i64 = a1.trim().parse().unwrap_or(0);
+            let l: TulispObject = (0..n).map(TulispObject::from).collect();
+            let len = l.base_iter().count();
+            let sum: i64 = l.iter::<i64>().map(|x| x.unwrap_or(0)).sum();
+            let last = lists::last(&l, None).and_then(|x| x.car()).map(|x| x.to_string()).unwrap_or_else(|_| "ERR".into());
+            let copy_len = l.deep_copy().map(|c| c.base_iter().count()).unwrap_or(0);
+            format!("BIG {} {} {} {}", len, sum, last, copy_len)
+        }
         "fromiter" => {
             let both = format!("{} {}", a1, a2);
             let v = match hs(s, &both) {
